@@ -35,6 +35,9 @@ LITERALS = [
     # integer literals on float fields are converted with Into (f64: From<i32>); f32 has no such conversion
     ("f64", "1", "f64:1.0"), ("f64", "7u8", "f64:7.0"), ("f32", "7u8", "f32:7.0"),
     ("f64", "0x10", "f64:16.0"),
+    # negative literals: whatever follows them in the attribute (`= -3` last, `= -3,`, `expr(-3)`) they are literals
+    ("f64", "-3", "f64:-3.0"), ("f64", "-1.5", "f64:-1.5"), ("i64", "-7i32", "i64:-7"), ("f32", "-2.5", "f32:-2.5"),
+    ("i8", "-1", "i8:-1"), (RT + "W", "-3", "W:397"), ("f64", "-2.5f32", "f64:-2.5"),
     # `= false` is a value like any other (not "switched off"): types whose From<bool>(false) differs from their Default
     (RT + "W", "false", "W:600"), ("::core::option::Option<bool>", "false", "S(bool:false)"),
     ("::core::option::Option<bool>", "true", "S(bool:true)"), ("bool", "false", "bool:false"),
